@@ -68,7 +68,11 @@ Definition put_store (s : store) : list N :=
 
 Definition toks_eqb := list_eqb N.eqb.
 Definition res_class (r : open_res) : N :=
-  match r with Opened _ => 0 | Failed _ => 1 | Refused _ => 2 end.
+  match r with
+  | Opened s => match s_leases s with Some (true, _) => 0 | _ => 5 end   (* 5: opens, but get_leases() cannot read it *)
+  | Failed _ => 1
+  | Refused _ => 2
+  end.
 
 Definition view_eqb (a b : N * list N * N * N * list N) : bool :=
   let '(a1, a2, a3, a4, a5) := a in let '(b1, b2, b3, b4, b5) := b in
@@ -97,7 +101,7 @@ Definition check_schema (ts : list N) : list N :=
         (* the property, on what the implementation did *)
         if wf_store s && known_version s && negb ((r2 =? 0) && rows_eqb (rows d2) (rows s)) then v_viol 1
         else if negb (known_version s) && s_sv s &&
-                negb ((r1 =? 2) && toks_eqb (put_store d1) (put_store s) &&
+                negb (((r1 =? 2) || (r1 =? 3)) && toks_eqb (put_store d1) (put_store s) &&
                       (r2 =? 2) && toks_eqb (put_store d2) (put_store s)) &&
                 match s_ver s with Some v => ((-2147483648 <=? v) && (v <? 2147483648))%Z | None => false end
              then v_viol 2
